@@ -81,6 +81,18 @@ fn format_single_line_comment_string(comment: &str) -> &str {
     comment.trim_end()
 }
 
+/// Normalises a comment token which is being moved to a different location, without adding any
+/// surrounding trivia to it: trailing whitespace of a single line comment is removed, and the line endings
+/// inside of a multiline comment are converted. Any other token is returned as it is.
+pub fn format_moved_comment(ctx: &Context, token: &Token) -> Token {
+    match token.token_type() {
+        TokenType::SingleLineComment { .. } | TokenType::MultiLineComment { .. } => {
+            format_token(ctx, token, FormatTokenType::Token, Shape::new(ctx)).0
+        }
+        _ => token.to_owned(),
+    }
+}
+
 pub fn trivia_to_vec(
     (token, leading, trailing): (Token, Option<Vec<Token>>, Option<Vec<Token>>),
 ) -> Vec<Token> {
